@@ -170,6 +170,40 @@ void run_t(vf::Ctx& c)
             VF_CHECK(c, ia == ib && ia == ic, "C09:scale-invariance", "weights " << vf::show(wa) << ": u=" << vf::show(seen) << " selects channel " << ia << ", after scaling all weights by denorm_min channel "
                 << ib << ", by the smallest normal number channel " << ic);
         }
+        // exact rule for these integer weights (every partial sum is exact in T, a boundary is the correctly rounded quotient
+        // S_i / S_n): a canonical number that is not that rounded boundary itself lies strictly on one side of the exact
+        // boundary, and the exact comparison u * S_n < S_i (carried out in integers) decides the channel
+        {
+            using u128 = unsigned __int128;
+            std::vector<std::uint64_t> S(n);
+            { std::uint64_t run = 0; for (std::size_t i = 0; i != n; ++i) { run += static_cast<std::uint64_t>(wa[i]); S[i] = run; } }
+            auto below = [&](T u, std::uint64_t Si) { // u * S_n < S_i ?
+                if (u == T(0)) { return Si > 0; }
+                int e = 0;
+                long double const mant = std::frexp(static_cast<long double>(u), &e); // u = mant * 2^e, mant in [0.5, 1)
+                std::uint64_t const m = static_cast<std::uint64_t>(std::ldexp(mant, 64));   // exact: <= 64 significant bits
+                int const sh = 64 - e;                                                    // u = m / 2^sh, sh >= 64
+                u128 const lhs = static_cast<u128>(m) * S[n - 1];                          // < 2^64 * 2^17
+                if (sh >= 100) { return Si > 0; }
+                return lhs < (static_cast<u128>(Si) << sh);
+            };
+            for (std::size_t i = 0; i + 1 < n; ++i)
+            {
+                T const b = sums[i] / sums[n - 1];
+                for (T u : {std::nextafter(b, T(0)), std::nextafter(std::nextafter(b, T(0)), T(0)), std::nextafter(b, T(2)), std::nextafter(std::nextafter(b, T(2)), T(2))})
+                {
+                    if (!(u >= T(0) && u < T(1)) || u == b) { continue; }
+                    T seen;
+                    std::size_t const got = select<T>(da, static_cast<long double>(u), seen, c);
+                    if (seen == b) { continue; } // (the engine delivers multiples of 2^-64: judge the number that was actually drawn)
+                    std::size_t expect = 0;
+                    while (expect + 1 < n && !below(seen, S[expect])) { ++expect; }
+                    ++c.sub;
+                    VF_CHECK(c, got == expect, "C09:exact-interval", "integer weights " << vf::show(wa) << ": the canonical number " << vf::show(seen) << " next to the boundary " << vf::show(b)
+                        << " selected channel " << got << ", it lies in the interval of channel " << expect);
+                }
+            }
+        }
     }
 
     // exact class: integer weights that sum to 2^digits, so that every cumulative boundary c / 2^digits is a canonical number
